@@ -193,4 +193,5 @@ def check_optimizers(ctx):
 def run(ctx):
     for i in range(ctx.budget(25, 200)):
         check_losses(ctx, i)
+        ctx.gc(16)
     check_optimizers(ctx)
